@@ -93,6 +93,12 @@ func (ms *Modules) Parse(data, name string) error {
 		return err
 	}
 	for _, s := range ss {
+		// Only modules and submodules can be added. Anything else is
+		// refused before it is built: building it would leave its
+		// typedefs in the type dictionary with no module around them.
+		if s.Keyword != "module" && s.Keyword != "submodule" {
+			return fmt.Errorf("%s: not a module or submodule: %s is of type %s", s.Location(), s.Argument, s.Keyword)
+		}
 		n, err := buildASTWithTypeDict(s, ms.typeDict)
 		if err != nil {
 			return err
